@@ -97,11 +97,17 @@ Theorem C20_bytes_private : forall pfx pfs (s s' : store V) frs rq,
   forall (st : store V) n, served st (bufid_eqb b) n = served st (fun _ => false) n.
 Proof. exact (bytes_private V D jdec unm_ok ans now_s). Qed.
 
-(* rejected up front: a non-pointer or non-struct argument, an empty name, an unsupported type
-   without the json verb, no tagged field - and nothing else; a rejection happens before any
-   request (no request, store unchanged; NewStore fails in secretNames) *)
+(* rejected up front: a non-pointer or non-struct argument - including the untyped nil (also
+   StoreConfig.Structs with a nil Value) and a nil pointer to a struct of ANY shape, tagged or not
+   (finding F9, repaired by 94ee9a9: these used to panic in reflect) -, an empty name, an unsupported
+   type without the json verb, no tagged field - and nothing else: only a non-nil pointer to a struct
+   is ever accepted; a rejection happens before any request (no request, store unchanged; NewStore
+   fails in secretNames) *)
 Theorem C20_reject_upfront :
   (forall sh, parse_fields (AStruct sh) = inl ENotPtrStruct /\ parse_fields ANonStruct = inl ENotPtrStruct) /\
+  (forall sh, parse_fields ANil = inl ENotPtrStruct /\ parse_fields (ANilStructPtr sh) = inl ENilPtr) /\
+  (forall a, (forall sh, a <> AStructPtr sh) -> exists e, parse_fields a = inl e) /\
+  (forall a pfs, parse_fields a = inr pfs -> exists sh, a = AStructPtr sh) /\
   (forall sh l f tag, In (l, f) (visible sh) -> ftag f = Some tag -> tag_name tag = [] ->
      exists e, parse_fields (AStructPtr sh) = inl e) /\
   (forall sh l f tag t, In (l, f) (visible sh) -> ftag f = Some tag -> tag_json tag = false -> fty f = TOther t ->
@@ -115,7 +121,8 @@ Theorem C20_reject_upfront :
      parse_apply jdec unm_ok ans now_s a pfx s = (s, inl e, []) /\
      new_store jdec unm_ok ans now_s allow_lookup extra a pfx = NSReject e).
 Proof.
-  split; [exact reject_not_ptr|]. split; [exact reject_empty_name|]. split; [exact reject_unsupported|].
+  split; [exact reject_not_ptr|]. split; [exact reject_nil|]. split; [exact reject_unless_struct_ptr|].
+  split; [exact accepted_is_struct_ptr|]. split; [exact reject_empty_name|]. split; [exact reject_unsupported|].
   split; [exact reject_no_fields|]. split; [exact reject_only|]. exact (reject_no_requests V D jdec unm_ok ans now_s).
 Qed.
 
@@ -199,6 +206,11 @@ Example ex_rejections :
   /\ parse_fields (AStructPtr [IF (F 1 (Some [x61]) TString); IF (F 2 (Some [x62]) (TOther 6))]) = inl (EUnsupported (1,0))
   /\ parse_fields (AStructPtr [IF (F 1 None TString)]) = inl ENoFields
   /\ parse_fields (AStruct ex_shape) = inl ENotPtrStruct
+  /\ parse_fields ANil = inl ENotPtrStruct
+  /\ parse_fields (ANilStructPtr ex_shape) = inl ENilPtr
+  /\ parse_fields (ANilStructPtr [IF (F 1 None TString)]) = inl ENilPtr            (* untagged: nil pointer, not "no fields" *)
+  /\ new_store ex_jdec ex_unm ex_ans 5%Z true [[x61]] ANil ex_pfx = NSReject ENotPtrStruct
+  /\ parse_apply ex_jdec ex_unm ex_ans 5%Z (ANilStructPtr ex_shape) ex_pfx ex_store = (ex_store, inl ENilPtr, [])
   /\ new_store ex_jdec ex_unm ex_ans 5%Z true [] (AStructPtr [IF (F 1 (Some []) TString)]) ex_pfx = NSReject (EEmptyName (0,0)).
 Proof. vm_compute. repeat split; reflexivity. Qed.
 
